@@ -10,6 +10,7 @@ import (
 	"encoding/json"
 	"fmt"
 	"os"
+	"runtime/debug"
 	"sort"
 	"strconv"
 	"strings"
@@ -344,6 +345,10 @@ type D map[string]interface{}
 // value rendered as a string, and — if the panic is a memory fault converted
 // by debug.SetPanicOnFault — the faulting address.
 func Try(f func()) (panicked bool, msg string, isFault bool, addr uintptr) {
+	// SetPanicOnFault is per goroutine: faults at unexpected addresses (guard
+	// pages, write-protected inputs) become recoverable panics carrying Addr().
+	old := debug.SetPanicOnFault(true)
+	defer debug.SetPanicOnFault(old)
 	defer func() {
 		if p := recover(); p != nil {
 			panicked = true
